@@ -2,10 +2,12 @@ module verif/harness
 
 go 1.17
 
-require github.com/libsv/go-bt/v2 v2.0.0
+require (
+	github.com/libsv/go-bk v0.1.6
+	github.com/libsv/go-bt/v2 v2.0.0
+)
 
 require (
-	github.com/libsv/go-bk v0.1.6 // indirect
 	github.com/pkg/errors v0.9.1 // indirect
 	golang.org/x/crypto v0.14.0 // indirect
 )
